@@ -15,6 +15,7 @@ HEAD=$(git -C /repo log --format=%h -1)
 MISSED=0
 for d in /verif/seeded/*/; do
   id=$(basename $d); [ -f $d/meta.json ] || continue
+  if [ -n "${EVAL_FILTER:-}" ] && ! [[ "$id" =~ $EVAL_FILTER ]]; then continue; fi   # EVAL_FILTER='^(C09|C10)-' restricts the run (give another out file then)
   prop=$(python3 -c "import json;print(json.load(open('$d/meta.json'))['detected_by']['check'].split()[1])")
   ( cd $W/repo && git checkout -q -- . && git apply $d/patch.diff ) || { echo "| $id | $prop | patch does not apply | |" >> "$OUT.tmp"; continue; }
   tier=$(python3 -c "import json;print(json.load(open('$d/meta.json'))['detected_by']['check'].split()[2])")
